@@ -28,6 +28,8 @@ fn main() {
             let case = &doc["case"];
             let code = match case["engine"].as_str() {
                 Some("serve_mc") => mc::serve_mc::replay(case, &prop),
+                Some("fs_mc") => mc::fs_mc::replay(case, &prop),
+                Some("sched_mc") => mc::sched_mc::replay(case, &prop),
                 Some("neg_mc") | Some("neg_mc_c17") => mc::neg_mc::replay(case, &prop),
                 Some("stream_mc") | Some("stream_release") => mc::stream_mc::replay(case, &prop),
                 other => {
@@ -53,11 +55,14 @@ fn run(prop: &str, tier: Tier) -> i32 {
         "C07" => ("serve_mc", s::run_c07),
         "C08" => ("stream_mc", mc::stream_mc::run_c08),
         "C09" => ("stream_mc", mc::stream_mc::run_c09),
+        "C10" => ("sched_mc", mc::sched_mc::run_c10),
         "C11" => ("stream_mc", mc::stream_mc::run_c11_seq),
         "C12" => ("serve_mc", s::run_c12_serve),
         "C13" => ("serve_mc", s::run_c13),
         "C16" => ("neg_mc", mc::neg_mc::run_c16),
         "C17" => ("neg_mc", mc::neg_mc::run_c17),
+        "C18" => ("fs_mc", mc::fs_mc::run_c18),
+        "C19" => ("fs_mc", mc::fs_mc::run_c19),
         "C20" => ("serve_mc", s::run_c20_serve),
         "C14" => ("serve_mc", s::run_c14),
         "C15" => ("serve_mc", s::run_c15_serve),
